@@ -36,6 +36,8 @@ const (
 // bucket bound), 11s (beyond the last default bucket)}. #0/#1 share a label
 // set, #2/#3/#6 share one with different messages, so that sums, not single
 // values, are compared.
+var longErr = "Get \"http://a.test/x?" + strings.Repeat("q=0123456789&", 11) + "\": dial tcp 10.0.0.1:80"
+
 func pool() []vegeta.Result {
 	const u1, u2 = "http://a.test/x", "http://b.test/y?q=1"
 	return []vegeta.Result{
@@ -46,6 +48,9 @@ func pool() []vegeta.Result {
 		{Method: "GET", URL: u2, Code: 0, Latency: time.Millisecond, BytesIn: 0, BytesOut: 0, Error: "e1"},
 		{Method: "POST", URL: u1, Code: 200, Latency: 0, BytesIn: 1 << 33, BytesOut: 1 << 33},
 		{Method: "POST", URL: u2, Code: 500, Latency: 2500 * time.Millisecond, BytesIn: 1, BytesOut: 0, Error: "e1"},
+		// long error texts, as transport errors that embed a long URL produce: two that share their first 150 bytes
+		{Method: "GET", URL: u1, Code: 0, Latency: time.Millisecond, Error: longErr + ": connection refused"},
+		{Method: "GET", URL: u1, Code: 0, Latency: time.Millisecond, Error: longErr + ": i/o timeout (Client.Timeout exceeded while awaiting headers) \u00e9\u4e16"},
 	}
 }
 
